@@ -187,16 +187,29 @@ def comprehension_of(fn_node, name: str):
         elif isinstance(n, ast.Call) and isinstance(n.func, ast.Attribute) and isinstance(n.func.value, ast.Name) and n.func.value.id == name:
             if n.func.attr == "append" and len(n.args) == 1 and not n.keywords:
                 st = getattr(n, "_parent", None)
-                lp = getattr(st, "_parent", None)
-                if isinstance(st, ast.Expr) and isinstance(lp, ast.For) and lp.body == [st] and not lp.orelse:
-                    loops.append((lp, n.args[0]))
-                    continue
+                if isinstance(st, ast.Expr):
+                    # for a in A: [for b in B:] [if c:] L.append(E)      (every level holds exactly the next one, no else arms)
+                    chain, cur, up = [], st, getattr(st, "_parent", None)
+                    while isinstance(up, (ast.For, ast.If)) and up.body == [cur] and not up.orelse:
+                        chain.append(up)
+                        cur, up = up, getattr(up, "_parent", None)
+                    while chain and isinstance(chain[-1], ast.If):
+                        chain.pop()                       # an `if` around the whole loop is not part of the comprehension
+                    if chain:
+                        loops.append((chain[::-1], n.args[0]))
+                        continue
             other.append(n)
     if len(inits) != 1 or len(loops) != 1 or other:
         return None
-    lp, elt = loops[0]
-    comp = ast.ListComp(elt=elt, generators=[ast.comprehension(target=lp.target, iter=lp.iter, ifs=[], is_async=0)])
-    return ast.copy_location(comp, lp)
+    levels, elt = loops[0]
+    gens = []
+    for lv in levels:
+        if isinstance(lv, ast.For):
+            gens.append(ast.comprehension(target=lv.target, iter=lv.iter, ifs=[], is_async=0))
+        else:
+            gens[-1].ifs.append(lv.test)
+    comp = ast.ListComp(elt=elt, generators=gens)
+    return ast.copy_location(comp, levels[0])
 
 
 def path_of(e, flow, keep=()):
@@ -257,51 +270,140 @@ def as_comprehension(prog, cls, f, e):
         return e
     if isinstance(e, ast.Name):
         ex = Flow(f.node).expand(e)
-        if ex is not e:
+        if ex is not e and not (isinstance(ex, ast.List) and not ex.elts):
             return as_comprehension(prog, cls, f, ex)
         return comprehension_of(f.node, e.id)
     g = None
     nested_ok = False
-    if isinstance(e, ast.Call) and isinstance(e.func, ast.Name) and not e.args and not e.keywords and e.func.id in getattr(f, "nested", {}):
-        g = f.nested[e.func.id]                   # a parameterless generator function defined inside f (it sees f's `self`)
+    binding = {}
+    if isinstance(e, ast.Call) and isinstance(e.func, ast.Name) and not e.keywords and e.func.id in getattr(f, "nested", {}):
+        g = f.nested[e.func.id]                   # a generator function defined inside f (it sees f's `self`)
         nested_ok = True
+        params = list(g.params)
     elif isinstance(e, ast.Call) and isinstance(e.func, ast.Attribute) and isinstance(e.func.value, ast.Name) \
-            and e.func.value.id == f.self_name and not e.args and not e.keywords and cls is not None:
+            and e.func.value.id == f.self_name and not e.keywords and cls is not None:
         g = prog.resolve(cls, e.func.attr)
-    if g is not None:
-        if g is not None and g.is_generator and (nested_ok or g.self_name == f.self_name) or (g is not None and g.is_generator):
-            body = [st for st in g.node.body if not (isinstance(st, ast.Expr) and isinstance(st.value, ast.Constant))]
-            def yielded(st):
-                """the expression a one-statement loop body yields: `yield E`, or `if c: yield A else: yield B` as a conditional"""
-                if isinstance(st, ast.Expr) and isinstance(st.value, ast.Yield) and st.value.value is not None:
-                    return st.value.value
-                if isinstance(st, ast.If) and len(st.body) == 1 and len(st.orelse) == 1:
-                    a_, b_ = yielded(st.body[0]), yielded(st.orelse[0])
-                    if a_ is not None and b_ is not None:
-                        return ast.copy_location(ast.IfExp(test=st.test, body=a_, orelse=b_), st)
+        params = list(g.params[1:]) if g is not None else []
+    if g is None or not g.is_generator or not (nested_ok or g.self_name == f.self_name):
+        return None
+    # arguments that are plain paths / names are read in place of the parameters (which the helper must not re-bind)
+    if len(e.args) != len(params) or any(isinstance(a, ast.Starred) or dotted(a) is None for a in e.args):
+        return None
+    rebound = {n.id for n in ast.walk(g.node) if isinstance(n, ast.Name) and isinstance(n.ctx, (ast.Store, ast.Del))}
+    if rebound & set(params):
+        return None
+    binding = dict(zip(params, e.args))
+    body = [st for st in g.node.body if not (isinstance(st, ast.Expr) and isinstance(st.value, ast.Constant))]
+    if not (len(body) == 1 and isinstance(body[0], ast.For) and not body[0].orelse):
+        return None
+    lp = body[0]
+    elt = fold_loop_body(lp, g.node)
+    if elt is None:
+        return None
+    comp = ast.GeneratorExp(elt=elt, generators=[ast.comprehension(target=lp.target, iter=lp.iter, ifs=[], is_async=0)])
+    comp = ast.fix_missing_locations(ast.copy_location(comp, lp))
+    if binding:
+        comp = _subst_names(comp, binding)
+    # for i in range(len(L)): ... L[i] ...      ==      for i, x in enumerate(L): ... x ...
+    gen = comp.generators[0]
+    if isinstance(gen.target, ast.Name) and isinstance(gen.iter, ast.Call) and src(gen.iter.func) == "range" and len(gen.iter.args) == 1 \
+            and isinstance(gen.iter.args[0], ast.Call) and src(gen.iter.args[0].func) == "len" and len(gen.iter.args[0].args) == 1:
+        seq = gen.iter.args[0].args[0]
+        i = gen.target.id
+        item = f"_item_{i}"
+        hits = [0]
+
+        class _Sub(ast.NodeTransformer):
+            def visit_Subscript(self_, n):
+                if src(n.value) == src(seq) and isinstance(n.slice, ast.Name) and n.slice.id == i and isinstance(n.ctx, ast.Load):
+                    hits[0] += 1
+                    return ast.copy_location(ast.Name(id=item, ctx=ast.Load()), n)
+                return self_.generic_visit(n)
+        new_elt = _Sub().visit(_copy(comp.elt))
+        if hits[0]:
+            tgt = ast.Tuple(elts=[ast.Name(id=i, ctx=ast.Store()), ast.Name(id=item, ctx=ast.Store())], ctx=ast.Store())
+            it = ast.Call(func=ast.Name(id="enumerate", ctx=ast.Load()), args=[seq], keywords=[])
+            comp = ast.GeneratorExp(elt=new_elt, generators=[ast.comprehension(target=tgt, iter=it, ifs=[], is_async=0)])
+            comp = ast.fix_missing_locations(ast.copy_location(comp, lp))
+    return comp
+
+
+def _copy(e):
+    import copy
+    return copy.deepcopy(e)
+
+
+def _subst_names(e, env):
+    """copy of expression ``e`` with every loaded name in ``env`` replaced by (a copy of) its expression"""
+    class _S(ast.NodeTransformer):
+        def visit_Name(self_, n):
+            if isinstance(n.ctx, ast.Load) and n.id in env:
+                return ast.copy_location(_copy(env[n.id]), n)
+            return n
+    return ast.fix_missing_locations(_S().visit(_copy(e)))
+
+
+def fold_loop_body(lp: ast.For, fn_node) -> Optional[ast.expr]:
+    """the one expression a loop body yields per round, when the body is straight-line code over locals that live for one round:
+         x = A;  if c: x = B  [else: x = C];  yield x           ->       (B if c else C') with the earlier bindings read in place
+    Accepted statements: `name = E`, `if` whose arms are again such statements, and a final `yield E` (or an if/else of two
+    yields).  A name that is read before the round binds it (state carried from round to round) is not accepted: None."""
+    targets = {n.id for n in ast.walk(lp.target) if isinstance(n, ast.Name)}
+
+    def assigns(stmts, env) -> bool:
+        for st in stmts:
+            if isinstance(st, ast.Assign) and len(st.targets) == 1 and isinstance(st.targets[0], ast.Name):
+                if not reads_ok(st.value, env):
+                    return False
+                env[st.targets[0].id] = _subst_names(st.value, env)
+            elif isinstance(st, ast.If):
+                if not reads_ok(st.test, env):
+                    return False
+                e1, e2 = dict(env), dict(env)
+                if not assigns(st.body, e1) or not assigns(st.orelse, e2):
+                    return False
+                test = _subst_names(st.test, env)
+                for nm in set(e1) | set(e2):
+                    a, b = e1.get(nm), e2.get(nm)
+                    if a is env.get(nm) and b is env.get(nm):
+                        continue
+                    if a is None or b is None:
+                        if nm not in targets:
+                            return False                  # bound on one arm only and not a loop variable: carried state
+                        a = a if a is not None else ast.Name(id=nm, ctx=ast.Load())
+                        b = b if b is not None else ast.Name(id=nm, ctx=ast.Load())
+                    env[nm] = ast.fix_missing_locations(ast.copy_location(ast.IfExp(test=_copy(test), body=a, orelse=b), st))
+            elif isinstance(st, ast.Pass):
+                continue
+            else:
+                return False
+        return True
+    body_stores = {n.id for st in lp.body for n in ast.walk(st) if isinstance(n, ast.Name) and isinstance(n.ctx, ast.Store)}
+
+    def reads_ok(e, env) -> bool:
+        # a name the body binds may be read only once this round has bound it (or it is a loop variable)
+        return all(not (isinstance(n, ast.Name) and isinstance(n.ctx, ast.Load) and n.id in body_stores and n.id not in env and n.id not in targets)
+                   for n in ast.walk(e))
+
+    def yielded(st, env):
+        if isinstance(st, ast.Expr) and isinstance(st.value, ast.Yield) and st.value.value is not None:
+            return _subst_names(st.value.value, env) if reads_ok(st.value.value, env) else None
+        if isinstance(st, ast.If) and len(st.body) >= 1 and len(st.orelse) >= 1 and reads_ok(st.test, env):
+            e1, e2 = dict(env), dict(env)
+            if not assigns(st.body[:-1], e1) or not assigns(st.orelse[:-1], e2):
                 return None
-            if len(body) == 1 and isinstance(body[0], ast.For) and not body[0].orelse and len(body[0].body) == 1 \
-                    and yielded(body[0].body[0]) is not None and (nested_ok or g.self_name == f.self_name):
-                lp = body[0]
-                comp = ast.GeneratorExp(elt=yielded(lp.body[0]),
-                                        generators=[ast.comprehension(target=lp.target, iter=lp.iter, ifs=[], is_async=0)])
-                return ast.copy_location(comp, lp)
-            # for i in range(len(L)): x = L[i]; <yield>      ==      for i, x in enumerate(L): <yield>
-            if len(body) == 1 and isinstance(body[0], ast.For) and not body[0].orelse and len(body[0].body) == 2 \
-                    and isinstance(body[0].target, ast.Name) and isinstance(body[0].iter, ast.Call) and src(body[0].iter.func) == "range" \
-                    and len(body[0].iter.args) == 1 and isinstance(body[0].iter.args[0], ast.Call) and src(body[0].iter.args[0].func) == "len" \
-                    and (nested_ok or g.self_name == f.self_name):
-                lp = body[0]
-                seq = body[0].iter.args[0].args[0]
-                first = lp.body[0]
-                if isinstance(first, ast.Assign) and len(first.targets) == 1 and isinstance(first.targets[0], ast.Name) \
-                        and isinstance(first.value, ast.Subscript) and src(first.value.value) == src(seq) \
-                        and src(first.value.slice) == lp.target.id and yielded(lp.body[1]) is not None:
-                    tgt = ast.Tuple(elts=[ast.Name(id=lp.target.id, ctx=ast.Store()), ast.Name(id=first.targets[0].id, ctx=ast.Store())], ctx=ast.Store())
-                    it = ast.Call(func=ast.Name(id="enumerate", ctx=ast.Load()), args=[seq], keywords=[])
-                    comp = ast.GeneratorExp(elt=yielded(lp.body[1]), generators=[ast.comprehension(target=tgt, iter=it, ifs=[], is_async=0)])
-                    return ast.fix_missing_locations(ast.copy_location(comp, lp))
-    return None
+            a_, b_ = yielded(st.body[-1], e1), yielded(st.orelse[-1], e2)
+            if a_ is not None and b_ is not None:
+                return ast.fix_missing_locations(ast.copy_location(ast.IfExp(test=_subst_names(st.test, env), body=a_, orelse=b_), st))
+        return None
+    if not lp.body:
+        return None
+    if any(isinstance(n, (ast.Yield, ast.YieldFrom)) for st in lp.body[:-1] for n in ast.walk(st)):
+        return None
+    env: dict = {}
+    if not assigns(lp.body[:-1], env):
+        return None
+    return yielded(lp.body[-1], env)
 
 
 def expand_all(e, flow, keep=()):
